@@ -27,11 +27,34 @@ def run(ctx):
                 ctx.violation("c02-code-sent-despite-failed-check", "authorization code sent to the provider although a browser-side check fails", case)
         if not sent and checks_ok:
             ctx.violation("c02-code-not-redeemed", "all browser-side checks pass but the code was not redeemed", case)
-        session = o.get("session_cookie_set") or o.get("store_keys_after", 0) != o.get("store_keys_before", 0)
+        session = o.get("session_cookie_set") or o.get("store_keys_after", 0) > o.get("store_keys_before", 0)
         if session and not (checks_ok and m["code"] == own.get(m["cookie"])):
             ctx.violation("c02-session-for-foreign-login", "a session resulted although the callback does not belong to the login attempt bound in the cookie", case)
         if not checks_ok and (o.get("store_keys_after", 0) != o.get("store_keys_before", 0) or o.get("session_cookie_set")):
             ctx.violation("c02-store-changed-on-failed-check", "store changed / session cookie set although a browser-side check fails", case)
+        # "the store is unchanged" (and the first sentence: nothing but such a callback results in a session): every callback that is
+        # refused - whatever the reason - leaves every key AND every value of the store as it was, in particular the session this
+        # browser already holds (its cookie came with the request; sess=1) and other users' sessions; and that session still works
+        refused = not (o["status"] == 302 and o.get("session_cookie_set"))
+        sb, sa = o.get("store_before", {}), o.get("store_after", {})
+        if (refused or not checks_ok) and sb != sa:
+            diff = {"deleted": sorted(k for k in sb if k not in sa), "added": sorted(k for k in sa if k not in sb),
+                    "value_changed": sorted(k for k in sb if k in sa and sb[k] != sa[k])}
+            key = "c02-store-changed-by-refused-callback"
+            if o.get("held_session_key") in diff["deleted"] + diff["value_changed"]:
+                key = "c02-held-session-lost-by-refused-callback"
+            ctx.violation(key, "a callback that was refused (status %d, browser-side checks %s) changed the store: %s" %
+                          (o["status"], "pass" if checks_ok else "fail", diff),
+                          dict(case, store_before=sb, store_after=sa, store_difference=diff, held_session_key=o.get("held_session_key", "")))
+        if (refused or not checks_ok) and o.get("held_session_works_before") == "yes" and o.get("held_session_works_after") != "yes":
+            ctx.violation("c02-held-session-lost-by-refused-callback",
+                          "the session this browser already had (cookie sent with the callback) no longer works after a callback that was refused (status %d)" % o["status"],
+                          dict(case, held_session_key=o.get("held_session_key", ""), store_before=sb, store_after=sa))
+        if not refused and checks_ok:
+            # a successful callback writes exactly one entry (the new session)
+            written = sorted(k for k in sa if k not in sb or sb[k] != sa[k])
+            if len(written) != 1:
+                ctx.violation("c02-successful-callback-store-effect", "a successful callback did not write exactly one store entry", dict(case, written=written))
         if not o.get("clears_login"):
             ctx.violation("c02-login-cookie-not-cleared", "login cookie not cleared by the callback", case)
         if sent and checks_ok:
